@@ -11,7 +11,7 @@ CHECKS = {
   category="proof",
   text=("Kernel-checked theorems about the Lean model of HNF::new / SNF::new for every shape m x n and every integer matrix: "
         "H = A*R, D = L*A*R, two-sided integer inverses of R and L, lower-triangular / non-negative / left-reduced shape of H, "
-        "diagonal non-negative D, rank(D) = rank over Q, termination of both loops (fuel never exhausted), and the supercell coset "
+        "diagonal non-negative D, rank(D) = rank over Q, termination of both loops (fuel never exhausted), det R = det L = +-1, product of the diagonal of H = |det A| and |det D| = |det M| for square matrices, and the supercell coset "
         "theorem. The model is tied to the Rust code by exact equality of every output factor on an exhaustive 3x3 box and on "
         "random / harvested systems of the shapes the library uses; a disagreement triggers the Lean C15 oracle on the "
         "implementation's own outputs to look for a failing matrix. The consequence for supercells (theorem supercell_cosets) is tied to the code by running Transformation::transform_cell on every "
@@ -96,7 +96,7 @@ CHECKS = {
  "C09": dict(
   category="proof",
   text=("Theorems about the Lean model of iterative_symmetry_search/ToleranceHandler for every behaviour of the attempts (Props/C09.lean): if the first attempt succeeds the returned tolerances are "
-        "exactly the requested ones; the returned tolerances are those of the last attempt and that attempt succeeded; at most MAX_HANDLER*MAX_TRIALS = 64 attempts (constants regenerated). "
+        "exactly the requested ones; the returned tolerances are those of the last attempt and that attempt succeeded; at most MAX_HANDLER*MAX_TRIALS = 64 attempts (constants regenerated); every tried and the returned tolerance is requested*S^e with -64 <= e <= 64, i.e. positive and finite (Props/C09Bound.lean). "
         "Decided on explored inputs: noisy twins (<= 5% symprec + strain) and uniformly scaled twins (1e-2..1e3) give the same number, Hall number, operation count and orbit partition as "
         "the undistorted crystal (incl. supercells and shear twins with an explicit radian tolerance just wide enough for the allowed strain), and the returned tolerances equal the requested ones, positive. noise_accept / rough_match_unique of the design are not proved."),
   design_ref="DESIGN.md §3 C09", note=PIPE_NOTE,
@@ -113,7 +113,7 @@ CHECKS = {
   text=("Theorems for ALL decision traces of the three reductions (whatever the f64 comparisons decide): every Minkowski/Niggli/Delaunay step matrix has det +-1 (Niggli: +1), det T = +1 after the parity fix, "
         "reduced = basis*T, volume and handedness preserved; Delaunay selection (repaired) always returns det +1, with a kernel-checked negative theorem for the pinned selection; gauss2_shortest; "
         "minkowski3_minima: the twelve conditions of is_minkowski_reduced (EPS = 0) imply all three successive minima; soundness/completeness of the exact shortest-vector oracle. Tie: the exact-rational "
-        "model (certified sqrt enclosures, fragile cases excluded) reproduces T exactly on integer-valued bases of all 14 Bravais types incl. ties and on non-fragile float bases; the oracle judges every output."),
+        "model (certified sqrt enclosures, fragile cases excluded) reproduces T exactly on integer-valued bases of all 14 Bravais types incl. ties and on non-fragile float bases; the oracle judges every output, and an Err of the checked Lattice API on a basis the exact model reduces away from every threshold is a failing input."),
   design_ref="DESIGN.md §3 C14",
   note=("Trusted: Lean kernel + standard axioms; hand-written model tied by correspondence; f64 rounding not modelled (fragile comparisons excluded from T comparison, oracle still applies); loop termination "
         "explored only (fuel exhaustion counted). Known finding niggli-unique-elongated (absolute EPS vs |G| > 1e6)."),
